@@ -14,6 +14,7 @@ HOST_NAMES = {
     'I': 7,
     'E': [],
     'HL': [[1, 2], {'m': [['k', [3]]]}, 'x'],
+    'DL': [{'m': [['k', [1]], ['n', 1]]}, {'m': [['k', [2]]]}, {'m': [['k', [3]], ['z', {'m': [['k', [4]]]}]]}],
     '%rec%': {'m': [['customer', {'m': [['name', 'Ann'], ['tags', ['a']]]}], ['total', {'d': '9.5'}]]},
     '%msg%': 'hello',
     '%n%': {'d': '1.25'},
@@ -25,10 +26,11 @@ ATTR_STRINGS = ['__class__', '__globals__', '{0.__class__}', '{0.__globals__}', 
 
 def lam(r, arity, pure=True):
     if arity == 1:
-        body = r.choice([['name', 'p'], ['bin', '+', ['name', 'p'], ['num', '1']], ['call', 'str', [['name', 'p']], 'plain'],
+        body = r.choice([['name', 'p'], ['bin', '+', ['name', 'p'], ['num', '1']], ['bin', '+', ['index', ['name', 'DL'], ['num', '0']], ['name', 'p']], ['call', 'str', [['name', 'p']], 'plain'],
                          ['bin', '<', ['name', 'p'], ['num', '2']], ['call', 'len', [['list', [['name', 'p']]]], 'plain'], ['list', [['name', 'p']]]])
         return ['lambda', ['p'], body]
-    body = r.choice([['name', 'p'], ['bin', '+', ['name', 'p'], ['name', 'q']], ['list', [['name', 'p'], ['name', 'q']]], ['name', 'q']])
+    body = r.choice([['name', 'p'], ['bin', '+', ['name', 'p'], ['name', 'q']], ['list', [['name', 'p'], ['name', 'q']]], ['name', 'q'],
+                     ['bin', '+', ['name', 'p'], ['name', 'q']]])
     return ['lambda', ['p', 'q'], body]
 
 
@@ -85,9 +87,9 @@ KNOWN_SHAPES = {
     'sorted': [['L'], ['LS'], ['D'], ['L', 'lam1'], ['L', 'lam1', 'true'], ['D', 'lam2'], ['L', 'none', 'true'], ['NL', 'lam1'], ['HL']],
     'reversed': [['L'], ['S'], ['NL'], ['HL']],
     'shuffle': [['L'], ['NL'], ['HL'], ['E']],
-    'map': [['L', 'lam1'], ['S', 'lam1'], ['D', 'lam2'], ['NL', 'lam1'], ['HL', 'lam1']],
+    'map': [['L', 'lam1'], ['S', 'lam1'], ['D', 'lam2'], ['NL', 'lam1'], ['HL', 'lam1'], ['DL', 'lam1']],
     'filter': [['L', 'lam1'], ['NL', 'lam1'], ['HL', 'lam1']],
-    'reduce': [['L', 'lam2'], ['LS', 'lam2'], ['NL', 'lam2']],
+    'reduce': [['L', 'lam2'], ['LS', 'lam2'], ['NL', 'lam2'], ['DL', 'lam2'], ['DL', 'lam2']],
     'enumerate': [['L'], ['NL'], ['S']],
     'keys': [['D'], ['ND']], 'values': [['D'], ['ND']], 'items': [['D'], ['ND']],
     'join': [['LS'], ['LS', 'str'], ['L', 'str'], ['NL', 'str']],
